@@ -1503,7 +1503,9 @@ impl Prop for C07 {
          compared byte for byte with the model and replayed in a fresh session. Afterwards the successful lines are \
          re-run one per input in a fresh session, all joined, and cut into chunks at seeded points. Fork runs (1 of 4) \
          clone the session at a seeded point and continue parent and clone with different lines in a seeded \
-         interleaving (one side possibly dropped early); each side is compared with a from-scratch session. \
+         interleaving (one side possibly dropped early; each side re-defines the sibling's names, defines identifiers \
+         derived from the sibling's units - prefix + name - as variables, and echoes the sibling's last line); each \
+         side is compared with a from-scratch session. \
          Non-trivial = at least 3 successful lines containing a redefinition, a function value, an ans chain, an \
          import or a unit definition. Distinct = distinct fingerprint over (lines, outcomes, command output, final digest)."
             .to_string()
